@@ -7,10 +7,11 @@ Dataflow level (`Model.CycleData`, theorems in the second half): message payload
 the least fixpoint of the dataflow equations.
 -/
 import OpenFGAVerif.Proofs.CycleLive
+import OpenFGAVerif.Proofs.CycleData
 import OpenFGAVerif.Gen.Cycle
 
 namespace OpenFGAVerif.C21
-open OpenFGAVerif.Model.Cycle OpenFGAVerif.Proofs.Cycle
+open OpenFGAVerif.Model.Cycle OpenFGAVerif.Proofs.Cycle OpenFGAVerif.Model.CycleData OpenFGAVerif.Proofs.CycleData
 
 /-! ## Ties to the regenerated data (the statements the model mirrors, in source order) -/
 
@@ -354,5 +355,153 @@ example : (run t2 (init t2 1) (goodSchedule.take 11 ++ [.sleepDone 0])).isSome =
 /-- nobody passes `WaitForAllReady` while a message is in flight -/
 example : (run t2 (init t2 1) (goodSchedule.take 7 ++ [.waitDone 0])).isSome = false := by decide
 example : (Ring.joinN 3).prev = [2, 0, 1] ∧ (Ring.joinN 3).leader = [false, false, true] := by decide
+
+/-! ## Dataflow level: nothing derivable through the cycle is lost -/
+
+/-- `cancelled` never goes back to `false` -/
+theorem dstep_cancelled_mono {c : Cfg} {s s' : DSt} (a : DAct) (hs : dstep c s a = some s') (hc : s.cancelled = true) :
+    s'.cancelled = true := by
+  cases a <;> simp only [dstep] at hs <;> (repeat' split at hs) <;>
+    first
+    | (injection hs with hs; subst hs; first | exact hc | rfl)
+    | (simp at hs)
+
+theorem drun_cancelled_mono {c : Cfg} (acts : List DAct) {s s' : DSt} (hr : drun c s acts = some s') (hc : s.cancelled = true) :
+    s'.cancelled = true := by
+  induction acts generalizing s with
+  | nil => simp [drun] at hr; subst hr; exact hc
+  | cons a as ih =>
+    simp only [drun] at hr
+    cases hs : dstep c s a with
+    | none => simp [hs] at hr
+    | some s1 => rw [hs] at hr; exact ih hr (dstep_cancelled_mono a hs hc)
+
+/-- every state of an uncancelled run satisfies the dataflow invariant -/
+theorem drun_inv {c : Cfg} (hc : c.closedTopo) (acts : List DAct) {s s' : DSt} (h : DInv c s) (hr : drun c s acts = some s')
+    (hnc : s'.cancelled = false) : DInv c s' := by
+  induction acts generalizing s with
+  | nil => simp [drun] at hr; subst hr; exact h
+  | cons a as ih =>
+    simp only [drun] at hr
+    cases hs : dstep c s a with
+    | none => simp [hs] at hr
+    | some s1 =>
+      rw [hs] at hr
+      have h1 : s1.cancelled = false := by
+        cases hq : s1.cancelled with
+        | false => rfl
+        | true => have := drun_cancelled_mono as hr hq; rw [hnc] at this; simp at this
+      exact ih (dstep_inv hc h a hs h1) hr
+
+/-- **Refinement.** The protocol component of a dataflow run is a run of the protocol transition system, so every theorem of the
+first half (counting, quiescence, teardown order, progress) holds for the dataflow model. -/
+theorem dataflow_refines_protocol {c : Cfg} (acts : List DAct) {s s' : DSt} (hr : drun c s acts = some s') :
+    ∃ pacts, run c.topo s.p pacts = some s'.p := by
+  induction acts generalizing s with
+  | nil => simp [drun] at hr; subst hr; exact ⟨[], rfl⟩
+  | cons a as ih =>
+    simp only [drun] at hr
+    cases hs : dstep c s a with
+    | none => simp [hs] at hr
+    | some s1 =>
+      rw [hs] at hr
+      obtain ⟨pa, hpa⟩ := ih hr
+      have hstep : s1.p = s.p ∨ ∃ a', step c.topo s.p a' = some s1.p := by
+        cases a <;> simp only [dstep] at hs <;> (repeat' split at hs) <;>
+          first
+          | (injection hs with hs; subst hs; first | exact Or.inl rfl | exact Or.inr ⟨_, by assumption⟩)
+          | (simp at hs)
+      rcases hstep with e | ⟨a', ha'⟩
+      · exact ⟨pa, by rw [← e]; exact hpa⟩
+      · exact ⟨a' :: pa, by simp [run, ha', hpa]⟩
+
+/-- `Derivable` solves the dataflow equations … -/
+theorem derivable_closed (c : Cfg) :
+    (∀ i b r, i < c.topo.n → b ∈ c.stdIn i → r ∈ b → Derivable c i r) ∧
+    (∀ j k i v r, j < c.topo.n → Derivable c j v → (c.topo.outs j)[k]? = some i → r ∈ c.f j k v → Derivable c i r) :=
+  ⟨fun i b r => Derivable.base i b r, fun j k i v r => Derivable.step j k i v r⟩
+
+/-- … and is contained in every other solution: it is the least fixpoint. -/
+theorem derivable_least (c : Cfg) (X : Nat → Val → Prop)
+    (hb : ∀ i b r, i < c.topo.n → b ∈ c.stdIn i → r ∈ b → X i r)
+    (hs : ∀ j k i v r, j < c.topo.n → X j v → (c.topo.outs j)[k]? = some i → r ∈ c.f j k v → X i r) :
+    ∀ i r, Derivable c i r → X i r := by
+  intro i r h
+  induction h with
+  | base i b r hi hb' hr => exact hb i b r hi hb' hr
+  | step j k i v r hj _ hk hr ih => exact hs j k i v r hj ih hk hr
+
+/-- **No spurious object**: whatever a member ever put into its output buffer is derivable (any uncancelled state). -/
+theorem no_spurious_object (c : Cfg) (hn : 0 < c.topo.n) (hc : c.closedTopo) (acts : List DAct) (s : DSt)
+    (hr : drun c (dinit c) acts = some s) (hnc : s.cancelled = false) (i : Nat) (r : Val) (h : r ∈ s.out i) :
+    Derivable c i r :=
+  (drun_inv hc acts (dinv_init c hn) hr hnc).sOut i r h
+
+/-- **No lost object.** In every uncancelled run, for every schedule: as soon as the quiescence latch is closed — in particular
+whenever some member has passed `WaitForAllReady` or has closed a listener — there is no task left, and for *every* member `i`
+the set of values in its output buffer, which by then have all been handed to its non-cyclical listeners, is exactly the
+`i`-th component of the least fixpoint of the dataflow equations. Nothing derivable through the cycle is missing when the
+outputs close. -/
+theorem no_lost_object (c : Cfg) (hn : 0 < c.topo.n) (hc : c.closedTopo) (acts : List DAct) (s : DSt)
+    (hr : drun c (dinit c) acts = some s) (hnc : s.cancelled = false)
+    (ht : s.p.pool.qClosed = true ∨ ∃ m, m < c.topo.n ∧ (3 ≤ rank (s.p.pc m) ∨ 0 < s.p.closed m)) :
+    s.tasks = [] ∧ ∀ i, i < c.topo.n → ∀ r, (Derivable c i r ↔ r ∈ s.out i) ∧ (r ∈ s.out i → r ∈ s.extOut i) := by
+  have h := drun_inv hc acts (dinv_init c hn) hr hnc
+  have h0 : s.p.pool.inflight = 0 := by
+    rcases ht with hq | ⟨m, hm, h3 | hcl⟩
+    · exact zero_of_teardown h 0 hn (Or.inr (Or.inr hq))
+    · exact zero_of_teardown h m hm (Or.inl h3)
+    · exact zero_of_teardown h m hm (Or.inr (Or.inl hcl))
+  have hts := no_tasks_of_zero h h0
+  have hq := (quiescent_iff h.pinv).mpr h0
+  have hnoRes : ∀ i r, ¬ PRes s.tasks i r := by intro i r ⟨T, hT, _⟩; rw [hts] at hT; simp at hT
+  have hbase : ∀ i b r, i < c.topo.n → b ∈ c.stdIn i → r ∈ b → r ∈ s.out i := by
+    intro i b r hi hb hrb
+    rcases h.c1 i hi b hb r hrb with h1 | h1 | h1
+    · rw [h.todoRun i (hq.1 i hi).1] at h1; simp at h1
+    · exact absurd h1 (hnoRes i r)
+    · exact h1
+  have hstep : ∀ j k i v r, j < c.topo.n → v ∈ s.out j → (c.topo.outs j)[k]? = some i → r ∈ c.f j k v → r ∈ s.out i := by
+    intro j k i v r hj hv hk hrf
+    have hkl : k < c.topo.nl j := by
+      unfold Topo.nl
+      rcases List.getElem?_eq_some_iff.mp hk with ⟨hlt, _⟩
+      exact hlt
+    have hseen : v ∈ s.seen j k := by
+      rcases h.c2 j k hj hkl v hv with ⟨T, hT, _⟩ | ⟨T, hT, _⟩ | h1
+      · rw [hts] at hT; simp at hT
+      · rw [hts] at hT; simp at hT
+      · exact h1
+    rcases h.c3 j k i hk v hseen r hrf with h1 | h1
+    · exact absurd h1 (hnoRes i r)
+    · exact h1
+  refine ⟨hts, fun i hi r => ⟨⟨?_, h.sOut i r⟩, ?_⟩⟩
+  · exact derivable_least c (fun i r => r ∈ s.out i) hbase hstep i r
+  · intro hro
+    rcases h.c4 i r hro with ⟨T, hT, _⟩ | h1
+    · rw [hts] at hT; simp at hT
+    · exact h1
+
+/-! ### non-vacuity of the dataflow theorem: a self-referential member (`group#member: [user, group#member]`) -/
+
+def cSelf : Cfg :=
+  { topo := ⟨1, fun i => if i = 0 then [0] else []⟩, f := fun _ _ v => if v < 2 then [v + 1] else [],
+    stdIn := fun i => if i = 0 then [[1]] else [] }
+
+def selfSchedule : List DAct :=
+  [.stdRecv 0, .claim ⟨0, none, [], [1], [], []⟩, .flush ⟨0, none, [], [], [1], []⟩,
+   .sendExt ⟨0, none, [], [], [], [(none, [1]), (some 0, [1])]⟩, .sendCyc ⟨0, none, [], [], [], [(some 0, [1])]⟩,
+   .taskDone ⟨0, none, [], [], [], []⟩, .proto (.report 0), .proto (.srDec 0),
+   .dedupIn ⟨0, some (0, 0), [1], [], [], []⟩, .claim ⟨0, some (0, 0), [], [2], [], []⟩, .flush ⟨0, some (0, 0), [], [], [2], []⟩,
+   .sendExt ⟨0, some (0, 0), [], [], [], [(none, [2]), (some 0, [2])]⟩, .sendCyc ⟨0, some (0, 0), [], [], [], [(some 0, [2])]⟩,
+   .taskDone ⟨0, some (0, 0), [], [], [], []⟩, .dedupIn ⟨0, some (0, 0), [2], [], [], []⟩, .taskDone ⟨0, some (0, 0), [], [], [], []⟩,
+   .proto .latch, .proto (.waitDone 0)]
+
+/-- the run exists, ends quiescent with the latch closed, and the member's output is `{1, 2}`, all of it delivered -/
+example : ((drun cSelf (dinit cSelf) selfSchedule).map fun s =>
+    (s.p.pool.qClosed, s.cancelled, s.out 0, s.extOut 0, s.tasks.length)) = some (true, false, [2, 1], [1, 2], 0) := by decide
+
+/-- while the second message is still being processed nobody can pass `WaitForAllReady` -/
+example : (drun cSelf (dinit cSelf) (selfSchedule.take 14 ++ [.proto (.waitDone 0)])).isSome = false := by decide
 
 end OpenFGAVerif.C21
